@@ -814,8 +814,16 @@ def np_round(ex, x, decimals=0, **kw):
             return copy(a)
         # one rounding witness function per array
         g = z3.Function(f'rint!{next(ex.fresh)}', *([z3.IntSort()] * a.ndim), z3.IntSort())
+        ae = a.elem
         out = Arr(a.shape, lambda idx: z3.ToReal(g(*[tonum(i) for i in idx])), 'float')
         out.rint = (g, a)
+        ex.__dict__.setdefault('rints', []).append((g, a))
+        if a.ndim == 1:
+            def fact(t):
+                x = toreal(ae((t,)))
+                return z3.Implies(z3.And(t >= 0, t < tonum(a.shape[0])), z3.And(z3.ToReal(g(t)) - x <= Fraction(1, 2), x - z3.ToReal(g(t)) <= Fraction(1, 2)))
+            ex.add_forall(fact)
+            out.rint_fact = fact
         return out
     return f(x)
 
@@ -1246,3 +1254,21 @@ def np_split(ex, a, sections, axis=0):
     if isinstance(sections, np.ndarray) and isinstance(getattr(a, 'concrete', None), np.ndarray):
         return [lift(x) for x in np.split(a.concrete, sections)]
     raise Unsupported('np.split with unstructured section indices')
+
+
+@ext('numpy.sort')
+def np_sort(ex, a, axis=-1, **kw):
+    """sorted copy: a fresh non-decreasing array (np.sort's permutation property is not needed by any obligation and is not modelled;
+    the monotonicity instances s[i] <= s[j] for i <= j are supplied by the contracts at the index terms they need)"""
+    a = _arr(ex, a)
+    if a.ndim != 1:
+        raise Unsupported('sort nd')
+    if a.kind == 'complex':
+        raise Unsupported('sort complex')
+    k = next(ex.fresh)
+    f = z3.Function(f'sorted!{k}', z3.IntSort(), z3.RealSort() if a.kind == 'float' else z3.IntSort())
+    out = Arr(a.shape, lambda idx: f(tonum(idx[0])), a.kind)
+    out.sorted_fun = f
+    ex.add_forall(lambda t: z3.Implies(z3.And(t >= 0, t + 1 < tonum(a.shape[0])), f(t) <= f(t + 1)))
+    ex.__dict__.setdefault('sorted_arrays', []).append(out)
+    return out
